@@ -1,6 +1,7 @@
 import PhononModel.Model.NAC
 import PhononModel.Model.Wire
 open PhononModel PhononModel.Wire PhononModel.C06 PhononModel.C08
+attribute [local instance] PhononModel.C08.cxZero
 
 def readPhases8 (c : Cur) (cnt : Nat) : Option (Array (List (Cx Rat)) × Cur) := do
   let mut c := c
@@ -168,18 +169,26 @@ def handle (line : String) : String :=
       let (r, c) ← c.ints? (ng * 9)
       let (perm, c) ← c.nats? (ng * n)
       let perm ← allFin? n perm
+      let (mul, c) ← c.nats? (ng * ng)
+      let mul ← allFin? ng mul
       if !c.atEnd then none
-      if h : perm.size = ng * n then
+      if h : perm.size = ng * n ∧ mul.size = ng * ng then
         let pf : Fin ng → Fin n → Fin n := fun g i => perm[g.1 * n + i.1]'(by
           have := g.2; have := i.2
           calc g.1 * n + i.1 < g.1 * n + n := by omega
             _ = (g.1 + 1) * n := by rw [Nat.add_mul, Nat.one_mul]
             _ ≤ ng * n := Nat.mul_le_mul_right _ (by omega)
             _ = perm.size := by omega)
+        let mf : Fin ng → Fin ng → Fin ng := fun g i => mul[g.1 * ng + i.1]'(by
+          have := g.2; have := i.2
+          calc g.1 * ng + i.1 < g.1 * ng + ng := by omega
+            _ = (g.1 + 1) * ng := by rw [Nat.add_mul, Nat.one_mul]
+            _ ≤ ng * ng := Nat.mul_le_mul_right _ (by omega)
+            _ = mul.size := by omega)
         let rf : Fin ng → Mat3 := fun g =>
           let e := fun k => r.getD (g.1 * 9 + k) 0
           ((e 0, e 1, e 2), (e 3, e 4, e 5), (e 6, e 7, e 8))
-        pure (toString (groupWf rf pf))
+        pure (toString (groupWf rf pf mf))
       else none
     | _ => none
   r.getD "bad-op"
